@@ -1259,7 +1259,11 @@ class Unit:
                 fcont = next((im["span"] for im in impls if im["span"][0] <= fit["span"][0] and fit["span"][1] <= im["span"][1]), None)
                 if fcont == cont and not x.get("trait_impl") and not fit.get("trait_impl") and (neigh is None or f["segs"][1] > neigh["segs"][1]):
                     neigh = f
-            if x.get("trait_impl") and cont is not None:
+            has_sibling = any(f["file"] == relfile and "segs" in f and not x.get("trait_impl") and
+                              next((im["span"] for im in impls if im["span"][0] <= find_item(relfile, "fn", f["path"].split("#")[0])[1]["span"][0]
+                                    and find_item(relfile, "fn", f["path"].split("#")[0])[1]["span"][1] <= im["span"][1]), None) == cont
+                              for f in self.functions if not f["path"].startswith("trait "))
+            if cont is not None and (x.get("trait_impl") or not has_sibling):
                 # a trait impl method (e.g. `impl Default for T`): the whole impl wrapper is emitted right after the item of the self type
                 imrec = next(im for im in impls if im["span"] == cont)
                 src0 = spans_of(relfile)[0]
@@ -1268,7 +1272,7 @@ class Unit:
                 at = next((i + 1 for i, (t_, o_) in enumerate(self.segs)
                            if isinstance(o_, dict) and o_.get("kind") == "item" and o_.get("file") == relfile and o_.get("path", "").split("::")[-1] == tyname), None)
                 others = [y for y in items if y.get("kind") == "fn" and cont[0] <= y["span"][0] and y["span"][1] <= cont[1]]
-                if at is None or len(others) != 1:
+                if at is None or (x.get("trait_impl") and len(others) != 1):
                     continue
                 before = len(self.segs)
                 hdr = src0[imrec["header"][0]:imrec["header"][1]].decode()
